@@ -409,3 +409,81 @@ Proof.
   cbn [String.eqb Ascii.eqb Bool.eqb orb]. cbn [app]. rewrite app_nil_r.
   rewrite <- !app_assoc. reflexivity.
 Qed.
+
+(* ------------------------------------------------------------------ one section at a time *)
+Definition plain_sections : list (string * Z) :=
+  [("type", 1); ("import", 2); ("table", 4); ("memory", 5); ("global", 6); ("export", 7);
+   ("start", 8); ("elem", 9); ("data", 11); ("datacount", 12)].
+
+Theorem section_roundtrip name id : In (name, id) plain_sections ->
+  forall defs s, wf_module defs = true -> write_section defs name id = Ok s ->
+  forall f st rest, (0 < f)%nat ->
+    exists f', (f <= S f')%nat /\
+      read_sections f st (s ++ rest) = read_sections f' (add_defs st (filter (has_name name) defs)) rest.
+Proof.
+  unfold plain_sections, wf_module. cbn [In]. intros Hin defs s Hwf Hs f st rest Hf.
+  repeat (destruct Hin as [Hin|Hin]; [injection Hin as <- <-|]); try contradiction.
+  - apply (std_section defs "type" 1 read_type_definition); try reflexivity; auto.
+    std_rt defs "type" defn_type_rt.
+  - apply (std_section defs "import" 2 read_import_definition); try reflexivity; auto.
+    std_rt defs "import" defn_import_rt.
+  - apply (std_section defs "table" 4 read_table_definition); try reflexivity; auto.
+    std_rt defs "table" defn_table_rt.
+  - apply (std_section defs "memory" 5 read_memory_definition); try reflexivity; auto.
+    std_rt defs "memory" defn_memory_rt.
+  - apply (std_section defs "global" 6 read_global_definition); try reflexivity; auto.
+    std_rt defs "global" defn_global_rt.
+  - apply (std_section defs "export" 7 read_export_definition); try reflexivity; auto.
+    std_rt defs "export" defn_export_rt.
+  - apply (single_section defs "start" 8 read_start_definition); try reflexivity; auto.
+    std_rt defs "start" defn_start_rt.
+  - apply (std_section defs "elem" 9 read_elem_definition); try reflexivity; auto.
+    std_rt defs "elem" defn_elem_rt.
+  - apply (std_section defs "data" 11 read_data_definition); try reflexivity; auto.
+    std_rt defs "data" defn_data_rt.
+  - apply (single_section defs "datacount" 12 read_data_count_definition); try reflexivity; auto.
+    std_rt defs "datacount" defn_datacount_rt.
+Qed.
+
+(* function (3) + code (10): the code section is read back with the type indices the function
+   section announced *)
+Theorem function_code_roundtrip defs s3 s10 :
+  wf_module defs = true ->
+  write_section defs "function" 3 = Ok s3 -> write_section defs "func" 10 = Ok s10 ->
+  forall f defs0 rest, (1 < f)%nat ->
+    exists f', (f <= S (S f'))%nat /\
+      read_sections f (RState [] defs0) (s3 ++ s10 ++ rest) =
+      read_sections f' (RState (map tref (filter (has_name "func") defs))
+                               (defs0 ++ filter (has_name "func") defs)) rest.
+Proof.
+  unfold wf_module. intros Hwf E3 E10 f defs0 rest Hf.
+  destruct (function_section defs) with (s := s3) (f := f) (st := RState [] defs0) (rest := s10 ++ rest)
+    as (f1 & Hf1 & ->); auto; try lia.
+  { eapply Forall_impl; [|apply (filter_wf defs "func"); assumption].
+    intros d H; by_name H. cbn [wf_defn] in Hwd. split_and Hwd. unfold tref. cbn [func_ref].
+    unfold ref_ok in Hwd. apply andb_true_iff in Hwd. tauto. }
+  destruct (func_section defs []) with (s := s10) (f := f1) (rest := rest)
+    (st := set_t4f (RState [] defs0) (map tref (filter (has_name "func") defs)))
+    as (f2 & Hf2 & ->); auto; try lia.
+  { apply filter_wf; assumption. }
+  { cbn [type4func set_t4f]. now rewrite skipn_nil. }
+  exists f2. split; [lia|]. unfold add_defs, set_t4f. cbn [type4func definitions].
+  rewrite skipn_nil, app_nil_r. reflexivity.
+Qed.
+
+Theorem custom_roundtrip defs s :
+  wf_module defs = true -> write_section defs "custom" 0 = Ok s ->
+  forall f st rest, (List.length (filter (has_name "custom") defs) < f)%nat ->
+    read_sections f st (s ++ rest) =
+    read_sections (f - List.length (filter (has_name "custom") defs))
+                  (add_defs st (filter (has_name "custom") defs)) rest.
+Proof.
+  unfold wf_module. intros Hwf E f st rest Hf.
+  change (write_section defs "custom" 0) with
+    (let ds := filter (has_name "custom") defs in
+     match ds with [] => Ok [] | _ :: _ => write_all (write_custom_section 0) ds end) in E.
+  cbv zeta in E.
+  assert (E' : write_all (write_custom_section 0) (filter (has_name "custom") defs) = Ok s).
+  { destruct (filter (has_name "custom") defs); exact E. }
+  apply (custom_sections _ (filter_wf defs "custom" Hwf) _ E'). exact Hf.
+Qed.
